@@ -857,8 +857,8 @@ func (s *seqRun) postCrashProbe() string {
 				okr := s.hist["remove:ok"]
 				s.opRemove("remove", loc.dir, loc.name)
 				s.waitIdle()
-				if s.dead || s.hist["remove:ok"] != okr+1 {
-					continue
+				if s.dead || s.hist["remove:ok"] != okr+1 || s.srv.VerifShrinker().VerifNthread() != 0 {
+					continue // (a shrinker still at work after the wait: not a point at which to judge)
 				}
 				for _, hf := range halfFreed(s.srv.VerifFsState()) {
 					if hf == pin {
